@@ -719,8 +719,13 @@ class InterfaceClass(_InterfaceClassBase):
                 if '__classcell__' in attrs
                 else {}
             )
-            if '__adapt__' in needs_custom_class:
-                # We need to tell the C code to call this.
+            if (
+                '__adapt__' in needs_custom_class or
+                getattr(cls, '_CALL_CUSTOM_ADAPT', None)
+            ):
+                # We need to tell the C code to call this. It only looks
+                # in the dict of the class itself, so repeat the flag when
+                # the custom ``__adapt__`` is inherited.
                 needs_custom_class['_CALL_CUSTOM_ADAPT'] = 1
 
             if issubclass(cls, _InterfaceClassWithCustomMethods):
